@@ -135,5 +135,8 @@ class AbstractSourceSinkGraph(nx.DiGraph):
                     f"Edge ({u},{v}) has negative flow value {data[flow_attr]}. All flow values must be >=0."
                 )
             w_max = max(w_max, data[flow_attr])
+        if w_max == float("-inf"):
+            utils.logger.error(f"All edges are ignored: no edge carries a `{flow_attr}` value to be explained.")
+            raise ValueError(f"All edges are ignored: no edge carries a `{flow_attr}` value to be explained.")
         return w_max
 
